@@ -1,7 +1,11 @@
 Require Extraction.
 Require Import ExtrOcamlBasic.
+Require Import ExtrOcamlString.  (* Coq string literals of the widget skeleton -> char list; avoids a type named string in the extracted module *)
 From Coq Require Import NArith ZArith List.
 From CppcmsV Require Import C15.Defs.
 Definition keep_types : (N * Z * nat) := (0%N, 0%Z, 0%nat).
 Extraction "c15m.ml" keep_types escape escape_stream unescape amps_ok markup_free urlencode urldecode urlenc_alphabet
-  b64encode b64decode encoded_size decoded_size encode_str decode_str b64_alphabet_ok.
+  b64encode b64decode encoded_size decoded_size encode_str decode_str b64_alphabet_ok
+  b64_canonical filter_escape filter_urlencode filter_base64 widget_ctx render_slot take_until
+  filter_escape_sink filter_urlencode_sink filter_base64_sink render_full render_supported
+  filter_escape_stream_ok filter_urlencode_stream_ok filter_base64_stream_ok filter_on_failed_stream urlencode_stream.
